@@ -19,7 +19,7 @@ import (
 
 func removeAll(p string) { os.RemoveAll(p) }
 
-// Part B — one writer (Add, Add, Pop, Add) against two readers (a historical view and the frontier) on a real
+// Part B — one writer (Add, Add, Pop, Add) against three readers (two of a historical view, one of the frontier) on a real
 // leveldb-backed manager, all schedules up to the preemption bound. Scheduling points: every mutex acquisition in
 // common/db and every leveldb write of Add/Pop (VerifWriteHook).
 
@@ -140,6 +140,16 @@ func buildScenario(c *xs.Ctx, r *xs.Result, sc schedScenario) sched.Scenario {
 				}
 				obs = append(obs, snapshotObs{"old", oldID, readAll(v)})
 			}
+		})
+		// a second historical reader with a single late read: together with reader-old it makes "one reader warms the
+		// cache inside a window of the writer, another one reads after the writer has moved on" reachable with ONE preemption
+		s.Go("reader-old-late", func() {
+			v := mgr.Get(oldID)
+			if v == nil {
+				obs = append(obs, snapshotObs{"old", oldID, "nil-view"})
+				return
+			}
+			obs = append(obs, snapshotObs{"old", oldID, readAll(v)})
 		})
 		s.Go("reader-frontier", func() {
 			for i := 0; i < 2; i++ {
